@@ -2,6 +2,7 @@
 Oracle: independent precedence-climbing parser (vf/refexpr.py); monitor: parse_expression at the API boundary."""
 import itertools
 import json
+import re
 import random
 
 from .. import refexpr
@@ -114,8 +115,12 @@ def statement_contexts(text, ref, ref_ok, acc):
              ('for', 'for vv in {}:\nendfor', False), ('elif', 'if cc:\nelif {}:\nendif', False), ('jumpif', 'lbl:\njumpif ({}) lbl', False)]
     if text.lstrip()[:1] in ('=', ':') and not text.lstrip().startswith('=='):
         return  # `return = 2` is an assignment to the variable "return", `return :` a label: other statements, not this expression
+    if ' ' in text and not any(c in text for c in '\'"[]#\\\n\r'):
+        # a line continuation is a token boundary like a blank: `1\<newline>2` is the ill-formed `1 2`, never the number 12
+        broken = re.sub(r'(?<=\S) (?=\S)', lambda m: '\\\n', text)
+        forms += [('assign-continued', 'xx = ' + broken, True), ('return-continued', 'return ' + broken.replace('\\\n', '\\\n    ', 1), True)]
     for name, tmpl, tree in forms:
-        src = tmpl.replace('{}', text)
+        src = tmpl.replace('{}', text) if '-continued' not in name else tmpl
         try:
             model = parse_script(src)
             ok = True
@@ -183,7 +188,7 @@ def rand_tree(rnd, depth, budget):
         if y < 0.8:
             # any character may stand inside a string literal of an expression text - also a raw line feed, tab or carriage return
             return {'string': ''.join(rnd.choice("ab '\"\\(),\n\t\r#") for _ in range(rnd.randint(0, 4)))}
-        return {'variable': rnd.choice(['x y', 'a]b', 'p\\q', 'n.m', '1st'])}
+        return {'variable': rnd.choice(['x y', 'a]b', 'p\\q', 'n.m', '1st', 'a ', 'x y  ', 'tab\t', 'b] '])}
     budget[0] -= 1
     if x < 0.7:
         return {'binary': {'op': rnd.choice(OPS), 'left': rand_tree(rnd, depth - 1, budget), 'right': rand_tree(rnd, depth - 1, budget)}}
